@@ -55,6 +55,9 @@ type vncDriver struct {
 	// what every successful commit / direct edit made effective.
 	pending   []string
 	committed [][]string
+
+	// hooks run while the rpc is "on the wire" (the requester's context ending meanwhile)
+	duringEdit, duringCommit func()
 }
 
 func vncReply(warning bool) *types.NetconfResponse {
@@ -96,6 +99,9 @@ func vncPick(name string, outs []int) int {
 func (d *vncDriver) rec(c vncCall) { d.calls = append(d.calls, c) }
 
 func (d *vncDriver) EditConfig(target string, cfg string) (*types.NetconfResponse, error) {
+	if d.duringEdit != nil {
+		d.duringEdit()
+	}
 	out := vncPick("edit", d.editOuts)
 	err := d.err(out)
 	d.rec(vncCall{op: vncOpEdit, ds: target, cfg: cfg, failed: err != nil, eof: out == vncOutEOF})
@@ -113,6 +119,9 @@ func (d *vncDriver) EditConfig(target string, cfg string) (*types.NetconfRespons
 }
 
 func (d *vncDriver) Commit() error {
+	if d.duringCommit != nil {
+		d.duringCommit()
+	}
 	out := vncPick("commit", d.commitOuts)
 	err := d.err(out)
 	d.rec(vncCall{op: vncOpCommit, failed: err != nil, eof: out == vncOutEOF})
@@ -261,7 +270,23 @@ func vncNetconfSet(editOuts []int) {
 
 	wantDoc, _ := vncChangeDoc(docKind).WriteToString()
 
-	resp, err := t.Set(context.Background(), src)
+	// param "ctxend" = 1: the requester's context may end before the Set, while the edit-config
+	// rpc is on the wire, or while the commit is (the device does what it was asked either way)
+	ctx, cancel := context.WithCancel(context.Background())
+	defer cancel()
+	ctxEnd := 0
+	if verifrt.Param("ctxend", 0) == 1 {
+		ctxEnd = verifrt.Choice("ctxend", 4)
+		switch ctxEnd {
+		case 1:
+			cancel()
+		case 2:
+			drv.duringEdit = cancel
+		case 3:
+			drv.duringCommit = cancel
+		}
+	}
+	resp, err := t.Set(ctx, src)
 	verifrt.Reach("set-returned")
 
 	// digest of the recorded rpc sequence (Close is not an rpc)
@@ -306,8 +331,39 @@ func vncNetconfSet(editOuts []int) {
 	sourceFailed := docKind == vncDocFail
 	anyFailure := !startAlive || sourceFailed || failedAt >= 0
 
-	// an error is returned iff something failed
-	verifrt.Assert((err != nil) == anyFailure, "error-iff-a-call-failed")
+	// an error is returned iff something failed (a requester that went away may get either answer)
+	if ctxEnd == 0 {
+		verifrt.Assert((err != nil) == anyFailure, "error-iff-a-call-failed")
+	} else if anyFailure {
+		verifrt.Assert(err != nil, "error-iff-a-call-failed")
+	}
+	// whatever the answer: over a session that is still alive, with a device that accepts the
+	// discard, nothing uncommitted stays in the candidate, and an error means nothing took effect
+	sessionDied, discardFailed := false, false
+	for _, c := range drv.calls {
+		if c.eof {
+			sessionDied = true
+		}
+		if c.op == vncOpDiscard && c.failed {
+			discardFailed = true
+		}
+	}
+	if candidate && startAlive && !sessionDied && !discardFailed {
+		if strings.Contains(drv.errText, "EOF") && failedAt >= 0 {
+			// (situation: the device rejected an rpc with a text containing "EOF", which the
+			// target takes for a dead transport - same defect as discard-after-rejected-rpc/...)
+			if len(drv.pending) != 0 {
+				verifrt.Assert(false, "no-uncommitted-leftover-in-the-candidate/device-error-text-contains-EOF")
+			}
+		} else {
+			verifrt.Assert(len(drv.pending) == 0, "no-uncommitted-leftover-in-the-candidate")
+		}
+	}
+	if err != nil && ctxEnd != 0 && failedAt < 0 && !sourceFailed && startAlive {
+		// the only "failure" is the requester's context: either the change was not sent at all or
+		// it was carried through; an error with the change half-way is the one thing excluded
+		verifrt.Assert(len(drv.pending) == 0 || sessionDied, "requester-gone-leaves-no-half-done-change")
+	}
 	if err == nil {
 		verifrt.Assert(resp != nil, "success-has-response")
 	}
@@ -337,6 +393,10 @@ func vncNetconfSet(editOuts []int) {
 		verifrt.Reach("empty-change")
 		verifrt.Assert(len(seq) == 0, "empty-change-sends-nothing")
 		verifrt.Assert(err == nil, "empty-change-is-no-error")
+	case candidate && failedAt < 0 && ctxEnd != 0 && err != nil:
+		// the requester went away and the target gave up: nothing may have taken effect
+		verifrt.Reach("candidate-requester-gone")
+		verifrt.Assert(len(drv.committed) == 0 || commits == 1, "requester-gone-commits-at-most-once")
 	case candidate && failedAt < 0:
 		verifrt.Reach("candidate-success")
 		verifrt.Assert(len(seq) == 2 && seq[0] == vncOpEdit && seq[1] == vncOpCommit, "candidate-success-is-edit-then-commit")
@@ -366,6 +426,9 @@ func vncNetconfSet(editOuts []int) {
 			// nothing can be sent on a dead transport
 			verifrt.Reach("candidate-connection-died")
 		}
+	case ctxEnd != 0 && err != nil && failedAt < 0:
+		verifrt.Reach("running-requester-gone")
+		verifrt.Assert(edits <= 1, "running-exactly-one-edit-config")
 	default: // running
 		verifrt.Reach("running-with-change")
 		verifrt.Assert(edits == 1, "running-exactly-one-edit-config")
